@@ -87,8 +87,9 @@ impl Walk {
                         let probs: Vec<f64> = if plain.is_finite() {
                             outs.iter().map(|(w, _)| w / plain).collect()
                         } else {
-                            let total: f64 = outs.iter().map(|(w, _)| w / 4.0).sum();
-                            outs.iter().map(|(w, _)| (w / 4.0) / total).collect()
+                            let down = 2.0 * outs.len() as f64;
+                            let total: f64 = outs.iter().map(|(w, _)| w / down).sum();
+                            outs.iter().map(|(w, _)| (w / down) / total).collect()
                         };
                         self.chance.entry(name.clone()).or_default().push(probs);
                     }
